@@ -194,6 +194,15 @@ def relabel : Forest → Nat → Forest × Nat
 
 /-! ### the state: top-level lists -/
 
+/-! ### swap -/
+
+/-- the nodes `a` and `b` get the child lists `cb` and `ca` -/
+def swapKids (a b : Nat) (ca cb : Forest) : Forest → Forest
+  | [] => []
+  | (.node i n v cs) :: ts =>
+    (if i = a then .node i n v cb else if i = b then .node i n v ca else .node i n v (swapKids a b ca cb cs))
+      :: swapKids a b ca cb ts
+
 structure St where
   tops : List Forest := []
   next : Nat := 0
@@ -306,6 +315,21 @@ def destroy (s : St) (x : Nat) : Option St :=
   match s.detached? x with
   | none => none
   | some t => some { s with tops := s.eraseTop x, freed := s.freed ++ ids [t] }
+
+/-- `swap(a, b)`: the two nodes exchange their children.  Requires that neither lies below the other. -/
+def swap (s : St) (a b : Nat) : Option St :=
+  match s.find? a, s.find? b with
+  | some ta, some tb =>
+    if a = b then some s
+    else if (ids ta.children).contains b ∨ (ids tb.children).contains a then none
+    else some { s with tops := s.tops.map (swapKids a b ta.children tb.children) }
+  | _, _ => none
+
+/-- `relink(x)`: on a sound structure every link already has the value that is written -/
+def relink (s : St) (x : Nat) : Option St :=
+  match s.find? x with
+  | some _ => some s
+  | none => none
 
 def locate (s : St) (first : Nat) (pos : Int) (nm : Name) : Option (Option Nat) :=
   match s.sibsOf? first with
